@@ -125,6 +125,8 @@ func VF_C17_L1_HTTP() {
 	// play the services: every answer may carry a meta object with a
 	// symbolic status and headers that try to replace protected ones
 	reqsAtDirect := 0
+	errCode := ""   // the first service error answered (decides the status)
+	trigger := zzvf.ParamOr("trigger", 0) == 1
 	direct := false // a direct-response status has ended the request
 	var directStatus int
 	for step := 0; step < 8; step++ {
@@ -138,6 +140,23 @@ func VF_C17_L1_HTTP() {
 			zzvf.Assert(len(w.mq.reqs) == reqsAtDirect, "no-service-request-after-a-direct-response-status")
 		}
 		q := pend[0]
+		if trigger && strings.HasPrefix(q.subject, "get.") {
+			// a reaccess event reaches the resource while the request loads it
+			trigger = false
+			zzvf.Note("event: reaccess on test.model while loading")
+			w.mq.event("event.test.model", "reaccess", nil)
+			w.settle()
+		}
+		if !strings.HasPrefix(q.subject, "auth.") && errCode == "" && zzvf.ParamOr("errors", 0) == 1 {
+			codes := []string{"", "system.notFound", "system.methodNotFound", "system.accessDenied", "system.timeout", "system.internalError", "system.invalidParams"}
+			if k := zzvf.Choose("error-answer", len(codes)); k > 0 {
+				errCode = codes[k]
+				zzvf.Note("service: " + q.subject + " -> error " + errCode)
+				w.mq.answer(q, vfErrPayload(errCode, "x"), nil)
+				w.settle()
+				continue
+			}
+		}
 		withMeta := zzvf.Choose("meta", 2) == 1 && !strings.HasPrefix(q.subject, "get.")
 		st := 0
 		if withMeta {
@@ -186,7 +205,24 @@ func VF_C17_L1_HTTP() {
 			}
 		}
 	}
+	// nothing is requested for the temporary connection once it has answered
+	responded := len(w.mq.reqs)
+	for i := 0; i < 6 && len(w.mq.pending()) > 0; i++ {
+		for _, q := range w.mq.pending() {
+			w.mq.answer(q, []byte(`{"result":{"get":true,"model":{"a":1}}}`), nil)
+		}
+		w.settle()
+	}
+	if rec.status != 0 {
+		zzvf.Assert(len(w.mq.reqs) == responded, "no-service-request-after-the-http-response")
+	}
 	zzvf.Assert(vfQuiescent(w), "run-reaches-quiescence")
+	if errCode != "" && !direct {
+		want := map[string]int{"system.notFound": 404, "system.methodNotFound": 404, "system.accessDenied": 401, "system.timeout": 404, "system.internalError": 500, "system.invalidParams": 400}[errCode]
+		zzvf.Reach("c17l1-error")
+		zzvf.Assert(rec.status == want, "service-error-maps-to-its-fixed-status")
+		return
+	}
 	if direct {
 		zzvf.Assert(len(w.mq.reqs) == reqsAtDirect, "no-service-request-after-a-direct-response-status")
 	}
